@@ -16,6 +16,18 @@ def appendTag (oracle : Nat → Bytes) (b : Buf) (num : Int) (typ : Nat) : Buf :
 def appendVarint (oracle : Nat → Bytes) (b : Buf) (v : Nat) : Buf :=
   b.append oracle (Pico.Wire.varint v)
 
+/-- `protowire.AppendFixed32(buf, v)` on a written slice -/
+def appendFixed32 (oracle : Nat → Bytes) (b : Buf) (v : Nat) : Buf :=
+  b.append oracle (Pico.Wire.fixed32 v)
+
+/-- `protowire.AppendFixed64(buf, v)` on a written slice -/
+def appendFixed64 (oracle : Nat → Bytes) (b : Buf) (v : Nat) : Buf :=
+  b.append oracle (Pico.Wire.fixed64 v)
+
+/-- `protowire.AppendBytes(buf, v)` / `AppendString(buf, v)` on a written slice -/
+def appendBytes (oracle : Nat → Bytes) (b : Buf) (v : Bytes) : Buf :=
+  b.append oracle (Pico.Wire.lenPrefixed v)
+
 /-- `buf[:n]` -/
 def resliceTo (b : Buf) (n : Int) : Res Buf :=
   if n < 0 then .panic "slice bounds out of range" else b.resliceTo n.toNat
